@@ -448,6 +448,20 @@ class Build:
         return f"<Build {ast.unparse(self.elt)} for {ast.unparse(self.target)} in {ast.unparse(self.src)} ifs={[ast.unparse(i) for i in self.ifs]} uncond={self.unconditional}>"
 
 
+def comp_build(v: ast.AST, n) -> Optional[Build]:
+    """Build description of a comprehension expression (possibly wrapped in set()/list()/dict()/sorted())."""
+    inner = v
+    while isinstance(inner, ast.Call) and isinstance(inner.func, ast.Name) and inner.func.id in ("set", "list", "tuple", "frozenset", "sorted", "dict") and len(inner.args) >= 1:
+        inner = inner.args[0]
+    if isinstance(inner, (ast.ListComp, ast.SetComp, ast.GeneratorExp)) and len(inner.generators) == 1:
+        gen = inner.generators[0]
+        return Build(gen.iter, inner.elt, gen.target, list(gen.ifs), not gen.ifs, n)
+    if isinstance(inner, ast.DictComp) and len(inner.generators) == 1:
+        gen = inner.generators[0]
+        return Build(gen.iter, inner.value, gen.target, list(gen.ifs), not gen.ifs, n, key=inner.key)
+    return None
+
+
 def collection_builds(g: CFG, fn_node: ast.AST, name: str) -> List[Build]:
     """How is local collection `name` filled?  Recognises
          name = [/{ elt for target in src if ... }/]      (also wrapped in set()/list()/sorted())
